@@ -15,6 +15,25 @@ package genbank
 // A failing case is attributed to a witness class by delta debugging over named
 // shape axes (c01Blame): each axis can be neutralised on the abstract record;
 // the class is the axis that must stay for the clause to keep failing.
+//
+// CONSECUTIVE BLANKS (axes and classes consecutive-blanks-in-value,
+// consecutive-blanks-in-meta-text; c01PutBlankRuns, c01BlankQualRec,
+// c01BlankMetaRec, c01InjectBlanks). Printable ASCII includes the blank, and a
+// value may hold two or more blanks in a row ("Cloned by PCR.  Verified", a
+// note with aligned columns). "Verbatim" covers them: the run comes back as
+// long as it was stated. Everywhere else in this file texts are single-spaced;
+// an enumeration of its own and random records of their own (streams 9..12)
+// put runs of 2..6 blanks between two words of quoted qualifier values (on the
+// only line, the first, a middle or the last line of the laid-out qualifier)
+// and of the keyword-block and reference texts (first line or continuation
+// line). Only runs that lie INSIDE a laid-out line are generated: the writer
+// wraps at single blanks, a line break stands for exactly one blank, and a run
+// that the wrap would fall into cannot be laid out without leaving blanks at
+// the end of one line or the start of the next, which the flat-file layout
+// does not carry (probed on the unchanged reader: blanks left at the end of the
+// first line of a qualifier come back, blanks at the end or start of a
+// continuation line do not; such layouts are not part of the domain). Every
+// generated text is checked for that (c01TidyLines).
 
 import (
 	"bytes"
@@ -487,7 +506,7 @@ func c01Trunc(text string, limit int) string {
 			break
 		}
 	}
-	return out
+	return strings.TrimRight(out, " ") // a text cut inside a run of blanks does not end in one
 }
 
 func c01AllTexts(r *c01Rec) []*[]string {
@@ -809,6 +828,47 @@ func c01WordAxis(name string, set map[string]bool) c01Axis {
 		})
 }
 
+// c01HasBlankRun: two or more blanks in a row.
+func c01HasBlankRun(s string) bool { return strings.Contains(s, "  ") }
+
+func c01AnyBlankRun(paras []string) bool {
+	for _, p := range paras {
+		if c01HasBlankRun(p) {
+			return true
+		}
+	}
+	return false
+}
+
+// c01FillBlankRuns keeps one blank of every run and puts an x in the place of
+// each further one: the same length, the same line breaks (no run lies at one),
+// single-spaced.
+func c01FillBlankRuns(s string) string {
+	b := []byte(s)
+	for i := 1; i < len(b); i++ {
+		if b[i] == ' ' && (s[i-1] == ' ') {
+			b[i] = 'x'
+		}
+	}
+	return string(b)
+}
+
+// c01TidyLines: no laid-out line is empty, starts with a blank or ends in one,
+// i.e. every run of blanks of the text lies inside a line.
+func c01TidyLines(lines []string) bool {
+	for _, ln := range lines {
+		if ln == "" || ln[0] == ' ' || ln[len(ln)-1] == ' ' {
+			return false
+		}
+	}
+	return true
+}
+
+func c01QualTidy(q *c01Qual, width int) bool {
+	lines, _ := c01WrapQual(c01QualText(q), width-21)
+	return c01TidyLines(lines)
+}
+
 var c01DigitWord = map[int]string{1: "one", 2: "two", 3: "three", 4: "four", 5: "five", 6: "six"}
 
 // c01Axes lists the axes leaf first, containers last.
@@ -840,6 +900,32 @@ func c01Axes() []c01Axis {
 			func(r *c01Rec) { r.Mol = "DNA" }))
 	}
 	ax = append(ax,
+		// two or more blanks in a row inside a qualifier value / a keyword-block or
+		// reference text (neutralised to a single-spaced text of the same length
+		// with the same line breaks)
+		c01RecAxis("consecutive-blanks-in-value",
+			func(r *c01Rec) bool {
+				return c01AnyQual(r, func(q *c01Qual) bool { return c01HasBlankRun(q.Value) })
+			},
+			func(r *c01Rec) {
+				c01EachQual(r, func(_ *c01Feat, q *c01Qual) { q.Value = c01FillBlankRuns(q.Value) })
+			}),
+		c01RecAxis("consecutive-blanks-in-meta-text",
+			func(r *c01Rec) bool {
+				for _, t := range c01AllTexts(r) {
+					if c01AnyBlankRun(*t) {
+						return true
+					}
+				}
+				return false
+			},
+			func(r *c01Rec) {
+				for _, t := range c01AllTexts(r) {
+					for pi := range *t {
+						(*t)[pi] = c01FillBlankRuns((*t)[pi])
+					}
+				}
+			}),
 		c01RecAxis("circular-topology", func(r *c01Rec) bool { return r.Topo == "circular" }, func(r *c01Rec) { r.Topo = "linear" }),
 		c01RecAxis("no-topology", func(r *c01Rec) bool { return r.Topo == "" }, func(r *c01Rec) { r.Topo = "linear" }),
 		c01RecAxis("origin-trailing-blanks", func(r *c01Rec) bool { return r.OriginBlanks }, func(r *c01Rec) { r.OriginBlanks = false }),
@@ -981,7 +1067,7 @@ func c01Axes() []c01Axis {
 							out += " " + w
 						}
 					}
-					q.Value = out
+					q.Value = strings.TrimRight(out, " ") // a value cut inside a run of blanks does not end in one
 				})
 			}),
 		c01RecAxis("multi-line-location",
@@ -1729,6 +1815,218 @@ func c01KeywordContRec(rng *rand.Rand, n, width int, place, kw string) c01Rec {
 	return r
 }
 
+// which line of the laid-out text a run of blanks is put on
+const (
+	c01LineAny = iota - 1
+	c01LineFirst
+	c01LineMiddle
+	c01LineLast
+	c01LineContinuation // any line but the first
+)
+
+// c01PutBlankRuns widens `runs` gaps between two words of text to runLen()
+// blanks each. lay lays the text out (lines, and the index of the first
+// single-blank-separated token of every line, as c01WrapQual gives them); the
+// first run goes on the line named by line (c01LineFirst, ... of the layout at
+// that moment; it stays on a line of its own choosing only in so far as the
+// words after it move down), the others anywhere. A widening after which some
+// line would be empty, start with a blank or end in one is taken back. The
+// result says how many runs were put.
+func c01PutBlankRuns(rng *rand.Rand, text string, lay func(text string) ([]string, []int), line, runs int, runLen func() int) (string, int) {
+	put := 0
+	for k := 0; k < runs; k++ {
+		want := line
+		if k > 0 {
+			want = c01LineAny
+		}
+		for try := 0; try < 30; try++ {
+			lines, first := lay(text)
+			words := strings.Split(text, " ")
+			var cand []int
+			li := 0
+			for ti := 0; ti+1 < len(words); ti++ {
+				for li+1 < len(first) && first[li+1] >= 0 && first[li+1] <= ti {
+					li++
+				}
+				sameLine := li+1 >= len(first) || first[li+1] < 0 || ti+1 < first[li+1]
+				if !sameLine || words[ti] == "" || words[ti+1] == "" {
+					continue
+				}
+				ok := false
+				switch want {
+				case c01LineAny:
+					ok = true
+				case c01LineFirst:
+					ok = li == 0
+				case c01LineMiddle:
+					ok = li > 0 && li < len(lines)-1
+				case c01LineLast:
+					ok = li == len(lines)-1 && li > 0
+				case c01LineContinuation:
+					ok = li > 0
+				}
+				if ok {
+					cand = append(cand, ti)
+				}
+			}
+			if len(cand) == 0 {
+				break
+			}
+			ti := cand[rng.Intn(len(cand))]
+			fill := make([]string, runLen()-1)
+			out := append(append(append([]string{}, words[:ti+1]...), fill...), words[ti+1:]...)
+			wide := strings.Join(out, " ")
+			if l2, _ := lay(wide); c01TidyLines(l2) {
+				text = wide
+				put++
+				break
+			}
+		}
+	}
+	return text, put
+}
+
+func c01LayQual(key string, width int) func(string) ([]string, []int) {
+	return func(v string) ([]string, []int) {
+		q := c01Qual{Key: key, Value: v}
+		return c01WrapQual(c01QualText(&q), width-21)
+	}
+}
+
+// c01LayPara lays a paragraph of a keyword block out (c01Wrap gives the same
+// lines: no word of these texts is longer than a line).
+func c01LayPara(width int) func(string) ([]string, []int) {
+	return func(p string) ([]string, []int) { return c01WrapQual(p, width-12) }
+}
+
+// where the consecutive-blanks enumeration puts the (first) run in a qualifier
+var c01BlankLines = []string{"only-line", "first-line", "middle-line", "last-line"}
+
+// c01BlankQual: a quoted qualifier whose value has `runs` runs of runLen blanks,
+// the first of them on the named line of the laid-out qualifier (place 0: a
+// value of one line; 1..3: a value of three or more lines), every run inside a
+// line.
+func c01BlankQual(rng *rand.Rand, key string, width, runLen, place, runs int) c01Qual {
+	for try := 0; ; try++ {
+		q := c01Qual{Key: key}
+		line := c01LineAny
+		if place == 0 {
+			q.Value = c01Text(rng, c01ValueAlpha, 14+rng.Intn(20))
+		} else {
+			q.Value = c01Text(rng, c01ValueAlpha, 150+rng.Intn(80))
+			line = []int{c01LineFirst, c01LineMiddle, c01LineLast}[place-1]
+		}
+		n := 0
+		q.Value, n = c01PutBlankRuns(rng, q.Value, c01LayQual(key, width), line, runs, func() int { return runLen })
+		lines := c01QualLines(&q, width)
+		if n == runs && c01QualTidy(&q, width) && ((place == 0 && lines == 1) || (place > 0 && lines >= 3)) {
+			return q
+		}
+		if try > 200 {
+			panic(fmt.Sprintf("c01BlankQual: cannot build key=%s width=%d run=%d place=%d runs=%d", key, width, runLen, place, runs))
+		}
+	}
+}
+
+// c01BlankQualRec: the 345-letter record of the long-token enumeration (two
+// features of two qualifiers, one reference, COMMENT) with a c01BlankQual at the
+// named place.
+func c01BlankQualRec(rng *rand.Rand, width, runLen, place, runs int, last bool) c01Rec {
+	r := c01ShapeRec(rng, 345, 2, 2, c01VPlain, 1)
+	r.Width = width
+	short := func(k int) []string { return []string{c01Text(rng, c01MetaAlpha, k)} }
+	r.Refs = []c01Ref{{Authors: short(30), Title: short(40), Journal: short(30)}}
+	r.Others = []c01KV{{"COMMENT", short(40), false}}
+	fi, qi := 0, 0
+	if last {
+		fi, qi = 1, 1
+	}
+	r.Feats[fi].Quals[qi] = c01BlankQual(rng, r.Feats[fi].Quals[qi].Key, width, runLen, place, runs)
+	return r
+}
+
+// the texts of the consecutive-blanks enumeration outside the feature table
+var c01BlankMetaPlaces = []string{"DEFINITION", "KEYWORDS", "SOURCE", "ORGANISM", "COMMENT", "DBLINK", "AUTHORS", "TITLE", "JOURNAL", "REMARK"}
+
+// c01BlankMetaRec: the record of the keyword-like-continuation enumeration (two
+// features, two complete references, DBLINK and COMMENT) in which the text of
+// the named place (ORGANISM: the lineage below the name line; DBLINK: a second
+// entry; reference fields: of the first reference) is a paragraph of two or
+// three lines with a run of runLen blanks between two words of its first line
+// (cont false) or of a continuation line (cont true), and a second run
+// anywhere.
+func c01BlankMetaRec(rng *rand.Rand, width int, place string, runLen int, cont bool) c01Rec {
+	r := c01ShapeRec(rng, 345, 2, 1, c01VPlain, 1)
+	r.Width = width
+	short := func(k int) []string { return []string{c01Text(rng, c01MetaAlpha, k)} }
+	for i := 0; i < 2; i++ {
+		r.Refs = append(r.Refs, c01Ref{Authors: short(30), Title: short(40), Journal: short(30), PubMed: c01Word(rng, c01Digits, 6, 8), Remark: short(30)})
+	}
+	r.Others = []c01KV{{"DBLINK", []string{"BioProject: PRJNA" + c01Word(rng, c01Digits, 4, 6)}, true}, {"COMMENT", short(40), false}}
+	line := c01LineFirst
+	if cont {
+		line = c01LineContinuation
+	}
+	para := ""
+	for try := 0; ; try++ {
+		n := 0
+		para, n = c01PutBlankRuns(rng, c01Text(rng, c01MetaAlpha, 100+rng.Intn(60)), c01LayPara(width), line, 2, func() int { return runLen })
+		if lines, _ := c01LayPara(width)(para); n == 2 && len(lines) >= 2 && c01TidyLines(lines) {
+			break
+		}
+		if try > 200 {
+			panic("c01BlankMetaRec: cannot build " + place)
+		}
+	}
+	switch place {
+	case "DEFINITION":
+		r.Def = []string{para}
+	case "KEYWORDS":
+		r.Kw = []string{para}
+	case "SOURCE":
+		r.Src = []string{para}
+	case "ORGANISM":
+		r.Org = append(r.Org[:1], para)
+	case "DBLINK":
+		r.Others[0].Text = append(r.Others[0].Text, para)
+	case "COMMENT":
+		r.Others[1].Text = []string{para}
+	case "AUTHORS":
+		r.Refs[0].Authors = []string{para}
+	case "TITLE":
+		r.Refs[0].Title = []string{para}
+	case "JOURNAL":
+		r.Refs[0].Journal = []string{para}
+	case "REMARK":
+		r.Refs[0].Remark = []string{para}
+	default:
+		panic("c01BlankMetaRec: " + place)
+	}
+	return r
+}
+
+// c01InjectBlanks widens, with probability 1/2 each, 1..3 gaps of the quoted
+// values of r other than /translation to runs of 2..4 blanks, and, with
+// probability 1/4 each, 1..2 gaps of a random paragraph of the DEFINITION,
+// KEYWORDS, SOURCE, ORGANISM, reference and extra-keyword texts; every run
+// inside a laid-out line (a widening that would not be is left out).
+func c01InjectBlanks(rng *rand.Rand, r *c01Rec) {
+	runLen := func() int { return 2 + rng.Intn(3) }
+	c01EachQual(r, func(_ *c01Feat, q *c01Qual) {
+		if q.Bare || q.Key == "translation" || !strings.Contains(q.Value, " ") || rng.Intn(2) > 0 {
+			return
+		}
+		q.Value, _ = c01PutBlankRuns(rng, q.Value, c01LayQual(q.Key, r.Width), c01LineAny, 1+rng.Intn(3), runLen)
+	})
+	for _, t := range c01AllTexts(r) {
+		if t == &r.Acc || t == &r.Ver || len(*t) == 0 || rng.Intn(4) > 0 {
+			continue
+		}
+		pi := rng.Intn(len(*t))
+		(*t)[pi], _ = c01PutBlankRuns(rng, (*t)[pi], c01LayPara(r.Width), c01LineAny, 1+rng.Intn(2), runLen)
+	}
+}
+
 // c01ShapeRec: the record of the exhaustive part. Every feature has the same
 // shape; content is random.
 func c01ShapeRec(rng *rand.Rand, n, nFeat, nq, vshape, locLines int) c01Rec {
@@ -2372,8 +2670,10 @@ func TestVerifC01(t *testing.T) {
 	nRandRec, nRandFile := 600, 200
 	lenReps := []int{7, 12, 345, 1234, 12345, 100000}
 	extraLens := []int{1, 9, 10, 60, 61, 99, 100, 120, 999, 1000, 9999, 10000, 99999}
+	nBlankRand := 80 // random records with runs of blanks (streams 11, 12)
 	if verifThorough() {
 		nRandRec, nRandFile = 30000, 8000
+		nBlankRand = 4000
 	}
 	prof := c01Profile{MaxMeta: 400, MaxQuals: 5, MaxLen: 100000}
 
@@ -2383,6 +2683,8 @@ func TestVerifC01(t *testing.T) {
 		" lower-case locus names that contain a molecule-type, topology or division word (dnak_transcript, ssu_rdna_tx, mrna_7, trna_leu, rrna16s, linearized_x, circular9, genomic_dna_1, bct_syn, linear, circular, dna, mrna, est_linear_rrna, ...) x 4 molecule types x 2 topologies x all 18 divisions on a plain 345-letter record, plus keyword-like continuation lines: each of the words {" + strings.Join(c01AllKeywordWords, ",") +
 		"} as the first word of an indented continuation line (every word in every place, so each word occurs above as well as below the real line of that keyword) of {a wrapped qualifier value, DEFINITION, KEYWORDS, SOURCE, the ORGANISM lineage, COMMENT, DBLINK, and AUTHORS, TITLE, JOURNAL, REMARK of the first of two references} x wrapping at {79,80} columns on a 345-letter record with two features, two complete references, DBLINK and COMMENT, plus short lines in front of long tokens: a quoted /note or /product value wrapped at a blank in front of a blank-free token of {21,30,45,57} characters (a URL of letters, digits and / . _ - = ? &, or a comma-separated accession list) that does not fit on the line above, so that this line, {the first line of the qualifier, its second line after a full first one}, stops 20 or more columns (up to 50) before the right margin, the token {ending the value, followed by a few words, followed by one to three more lines of words} x wrapping at {79,80} columns x {first qualifier of the first feature, so that another qualifier and another feature follow; last qualifier of the last feature} on a 345-letter record with two features of two qualifiers, one reference and COMMENT; "
 	randDom := fmt.Sprintf("plus %d seeded-random records: length 1..100000 (digit count uniform), locus name 1..16 lower-case characters, DNA/mRNA/tRNA/rRNA, linear/circular, 0..40 features with 0..5 qualifiers (values over printable ASCII without the double quote, single-spaced words, up to 230 characters, translations up to 260), locations a..b, complement, join, complement(join), partial, single base, join of up to 40 ranges on several lines, 0..5 references with optional TITLE/PUBMED/REMARK, COMMENT/DBLINK/PROJECT blocks, metadata texts to 400 characters, in about one record in six wrapped qualifier values, in about one record in eight values of the translation-text shape above (up to 252 characters, under any of the 14 qualifier names), in one record in five a keyword block or reference field with a continuation line whose first word is one of the keyword words above, and in one record in four a blank-free token of 21..57 characters (URL or accession list) put at a random word position into each quoted value other than /translation with probability 1/3 (where no piece of the laid-out qualifier gets longer than a line), which leaves the line above it up to 56 columns short; every 25th random record is read through Read from a temporary file; ", nRandRec)
+	shapeDom += "plus consecutive blanks (all texts above are single-spaced): a quoted /note or /product value with {1,3} runs of {2,3,6} blanks between two of its words, the first run on {the only line of a one-line value; the first, a middle, the last line of a value of three or more lines} x wrapping at {79,80} columns x {first qualifier of the first feature, last qualifier of the last feature} on a 345-letter record with two features of two qualifiers, one reference and COMMENT (class consecutive-blanks-in-value), and a paragraph of two or three lines with two runs of {2,4} blanks, the first on {its first line, a continuation line}, as the text of each of {" + strings.Join(c01BlankMetaPlaces, ", ") + "} (ORGANISM: the lineage; DBLINK: a second entry; reference fields: of the first of two references) x wrapping at {79,80} columns on a 345-letter record with two features, two complete references, DBLINK and COMMENT (class consecutive-blanks-in-meta-text); every run lies inside a laid-out line: the writer wraps at single blanks and a line break stands for exactly one blank, so a run that the wrap would fall into would leave blanks at the end of a line or the start of the next, a layout the format does not carry and the unchanged reader does not read back (it keeps blanks at the end of the first line of a qualifier and drops those at the end or start of a continuation line); such layouts are not generated; the value or text, runs included, must come back verbatim; "
+	randDom += fmt.Sprintf("plus %d seeded-random records of the same kind with lengths up to 9999 in which, with probability 1/2 each, 1..3 gaps between words of the quoted values other than /translation are widened to runs of 2..4 blanks and, with probability 1/4 each, 1..2 gaps of a paragraph of the DEFINITION, KEYWORDS, SOURCE, ORGANISM, reference and extra-keyword texts (every run inside a laid-out line, as above); ", nBlankRand)
 	runs := []*verifRun{
 		newVerifRun("C01", "io/genbank.Parse/panic-free", dom+shapeDom+randDom+"every case counts"),
 		newVerifRun("C01", "io/genbank.Parse/post/origin", dom+shapeDom+randDom+"every case counts (length >= 1)"),
@@ -2519,6 +2821,58 @@ func TestVerifC01(t *testing.T) {
 			place = "last-qualifier-of-last-feature"
 		}
 		return c01EvalRecord(fmt.Sprintf("long-token length=%d kind=%s short-line=%s after-token=%s width=%d place=%s", k.tokLen, []string{"url", "accession-list"}[k.kind], c01TokenLeads[k.lead], c01TokenTails[k.tail], k.width, place), &f, "")
+	})
+	// runs of two or more blanks inside qualifier values and keyword-block texts
+	type blankcase struct {
+		runLen, place, runs, width int
+		last                       bool
+		meta                       string // when set: the run goes into this keyword block or reference field
+		cont                       bool
+	}
+	var blankcases []blankcase
+	for _, runLen := range []int{2, 3, 6} {
+		for place := range c01BlankLines {
+			for _, nruns := range []int{1, 3} {
+				for _, width := range []int{79, 80} {
+					for _, last := range []bool{false, true} {
+						blankcases = append(blankcases, blankcase{runLen: runLen, place: place, runs: nruns, width: width, last: last})
+					}
+				}
+			}
+		}
+	}
+	for _, meta := range c01BlankMetaPlaces {
+		for _, runLen := range []int{2, 4} {
+			for _, cont := range []bool{false, true} {
+				for _, width := range []int{79, 80} {
+					blankcases = append(blankcases, blankcase{runLen: runLen, runs: 2, width: width, meta: meta, cont: cont})
+				}
+			}
+		}
+	}
+	c01Parallel(len(blankcases), runs, func(i int) []c01Out {
+		k := blankcases[i]
+		if k.meta != "" {
+			f := c01File{Recs: []c01Rec{c01BlankMetaRec(c01Rng(10, i), k.width, k.meta, k.runLen, k.cont)}, FinalNL: true}
+			line := "first-line"
+			if k.cont {
+				line = "continuation-line"
+			}
+			return c01EvalRecord(fmt.Sprintf("consecutive-blanks place=%s run=%d runs=2 first-run-on=%s width=%d", k.meta, k.runLen, line, k.width), &f, "")
+		}
+		f := c01File{Recs: []c01Rec{c01BlankQualRec(c01Rng(9, i), k.width, k.runLen, k.place, k.runs, k.last)}, FinalNL: true}
+		place := "first-qualifier-of-first-feature"
+		if k.last {
+			place = "last-qualifier-of-last-feature"
+		}
+		return c01EvalRecord(fmt.Sprintf("consecutive-blanks place=qualifier run=%d runs=%d first-run-on=%s width=%d at=%s", k.runLen, k.runs, c01BlankLines[k.place], k.width, place), &f, "")
+	})
+	c01Parallel(nBlankRand, runs, func(i int) []c01Out {
+		p := prof
+		p.MaxLen = 9999
+		f := c01File{Recs: []c01Rec{c01RandRec(c01Rng(11, i), p)}, FinalNL: i%2 == 0}
+		c01InjectBlanks(c01Rng(12, i), &f.Recs[0])
+		return c01EvalRecord("random-with-consecutive-blanks#"+strconv.Itoa(i), &f, "")
 	})
 	// ---- single records, random content ----------------------------------
 	rtmp := t.TempDir()
